@@ -396,6 +396,7 @@ def main():
 
     # ------------------- recorded traces of library routines (code -> spec)
     library_traces(ck, qr, numpy)
+    context_methods(ck, qr, numpy)
 
     ck.assume("TLC bound: 3 objects (2 usable as context operators), nesting "
               "<= 2(3), histories <= 9(12) steps; replayed behaviours up to "
@@ -492,6 +493,49 @@ def numeric_clauses(numpy, qr, objs, o, got, st, Smat, ref_data, cms):
                 return ("superoperator-action-invariant",
                         "%s.apply(%s) inside differs from outside" % (o, p))
     return None
+
+
+def context_methods(ck, qr, numpy):
+    """Methods of managed objects that work on the stored array must first
+    bring the object into the basis of the current context: a relaxation
+    tensor whose FIRST use inside a context is secularize() gives the same
+    result (there and after the context) as a twin that was read first."""
+    from quantarhei.qm import LindbladForm
+    rng = numpy.random.RandomState(ck.seed + 4)
+    for s in range(6 if ck.thorough else 3):
+        n = 3 + s % 2
+        A = rng.randn(n, n)
+        ham = qr.Hamiltonian(data=(A + A.T) / 2)
+        Bc = rng.randn(n, n) + (1j * rng.randn(n, n) if s % 2 else 0.0)
+        ctx = qr.qm.SelfAdjointOperator(data=(Bc + Bc.conj().T) / 2)
+
+        def tensor():
+            ops = [qr.qm.Operator(data=K.copy()) for K in Ks]
+            sbi = qr.qm.SystemBathInteraction(sys_operators=ops,
+                                              rates=(0.01, 0.02))
+            return LindbladForm(ham, sbi, as_operators=False)
+        Ks = [rng.randn(n, n), rng.randn(n, n)]
+        rp = dict(kind="context-method", method="secularize", n=n,
+                  complex_context=bool(s % 2))
+        with ck.guarded("transparent", "secularize-first-in-context", rp, rp):
+            ref, tst = tensor(), tensor()
+            with qr.eigenbasis_of(ctx):
+                numpy.array(ref.data)            # read first
+                ref.secularize()
+                r_in = numpy.array(ref.data)
+            r_out = numpy.array(ref.data)
+            with qr.eigenbasis_of(ctx):
+                tst.secularize()                 # first use
+                t_in = numpy.array(tst.data)
+            t_out = numpy.array(tst.data)
+            sc = max(1.0, float(numpy.abs(r_in).max()))
+            e = max(float(numpy.abs(t_in - r_in).max()),
+                    float(numpy.abs(t_out - r_out).max())) / sc
+            ck.case("context-method", ("secularize", s),
+                    sample=dict(rp, err=e))
+            if e > 1e-10:
+                ck.violation("transparent", "secularize-first-in-context",
+                             dict(rp, err=e), rp)
 
 
 def library_traces(ck, qr, numpy):
